@@ -278,6 +278,106 @@ theorem C05_udp_admits_same_secret (keyLenS keyLenC : Nat) (keyOf : List Nat →
         simp only [hS, hC, Bool.and_eq_true, beq_iff_eq] at h
         rw [hinj b h.2]
 
+/-! ## 6. histories: fail-over lists, reconnects, several upstream kinds through ONE manager
+
+    `Upstreams.open` tries every upstream of the list with the same certificate manager, a lost
+    session is re-opened with it, and every upstream kind writes into the `*tls.Config` it gets
+    (Socket.Connect: ServerName when empty; startTls: ServerName; stdin+tls: InsecureSkipVerify).
+    `runHist` threads the manager's state through the attempts; whether that state can carry
+    anything is the regenerated fact SA.Gen.getTlsConfigFreshPerCall. -/
+
+/-- **history independence**: whatever was attempted before (other hosts, other kinds, failed or
+    established, from any state of the manager), what attempt `i` hands to crypto/tls and whether it
+    is established are those of the attempt made alone — a function of the client options and of
+    upstream `i` only.  Holds for the fail-over walk and for connect / disconnect / connect. -/
+theorem C05_history_independent (X : X509) (co : Opts) (failover : Bool) (as : List Attempt) (m : Mgr)
+    (i : Nat) (out : Outcome)
+    (h : (runHist X genFacts SA.Gen.getTlsConfigFreshPerCall co failover as m)[i]? = some (some out)) :
+    ∃ a, as[i]? = some a ∧ out = alone X genFacts co a := by
+  have hf : SA.Gen.getTlsConfigFreshPerCall = true := by decide
+  rw [hf] at h
+  exact runHist_fresh X genFacts co failover as m i out h
+
+/-- without fail-over every attempt of the history is made -/
+theorem C05_history_seq (X : X509) (co : Opts) (as : List Attempt) (m : Mgr) :
+    runHist X genFacts SA.Gen.getTlsConfigFreshPerCall co false as m = as.map (fun a => some (alone X genFacts co a)) := by
+  have hf : SA.Gen.getTlsConfigFreshPerCall = true := by decide
+  rw [hf]
+  exact runHist_seq_fresh X genFacts co as m
+
+/-- the config an attempt hands to crypto/tls, for a verifying kind with a well-formed `h:p`:
+    it names `h` and skips verification exactly when the option says so — at every position of
+    every history -/
+theorem C05_history_config (X : X509) (co : Opts) (failover : Bool) (as : List Attempt) (m : Mgr)
+    (i : Nat) (out : Outcome) (a : Attempt) (c : TlsCfg) (h p : Name) (hw : WfHostPort h p)
+    (hr : (runHist X genFacts SA.Gen.getTlsConfigFreshPerCall co failover as m)[i]? = some (some out))
+    (ha : as[i]? = some a) (hk : a.kind ≠ .stdioTls) (hhp : a.hostport = h ++ ':' :: p) (hc : out.cfg = some c) :
+    effName a.kind a.hostport a.resolved c = h ∧ c.insecureSkipVerify = co.flag ∧ c.rootCAs = caPool co := by
+  obtain ⟨a', ha', hout⟩ := C05_history_independent X co failover as m i out hr
+  rw [ha] at ha'
+  cases ha'
+  subst hout
+  simp only [alone, attemptOn, mgrGet, if_true] at hc
+  split at hc
+  · cases hcl : clientGetTlsConfig co with
+    | err e => simp [hcl] at hc
+    | panic => simp [hcl] at hc
+    | ok c0 =>
+      simp only [hcl, Option.some.injEq] at hc
+      have hok := client_ok hcl
+      have hkw := kindWrites_fresh genFacts a.kind a.hostport a.resolved c0 hok.2.2.1
+      have hfi : forcesInsecure genFacts.sites a.kind = false := by
+        cases hkk : a.kind <;> first | exact absurd hkk hk | decide
+      simp only [hfi, Bool.false_eq_true, if_false] at hkw
+      rw [hc] at hkw
+      have hname := C05_expected_name a.kind hk h p a.resolved hw
+      have h1 := congrArg TlsCfg.serverName hkw.1
+      have h2 := congrArg TlsCfg.insecureSkipVerify hkw.1
+      have h3 := congrArg TlsCfg.rootCAs hkw.1
+      simp only at h1 h2 h3
+      rw [hhp]
+      rw [hhp] at h1
+      exact ⟨h1.trans hname, h2.trans hok.2.1, h3.trans hok.1⟩
+  · simp at hc
+
+/-- **soundness per attempt**: at any position of any history through one manager, with
+    verification on, a session is established only with a server whose certificate chains to the
+    configured CA, is valid, and matches the host name of THIS upstream -/
+theorem C05_history_auth_sound (X : X509) (co : Opts) (failover : Bool) (as : List Attempt) (m : Mgr)
+    (i : Nat) (out : Outcome) (a : Attempt) (h p : Name) (hw : WfHostPort h p)
+    (hr : (runHist X genFacts SA.Gen.getTlsConfigFreshPerCall co failover as m)[i]? = some (some out))
+    (ha : as[i]? = some a) (hk : a.kind ≠ .stdioTls) (hhp : a.hostport = h ++ ':' :: p)
+    (hins : co.flag = false) (hest : out.est = true) :
+    a.up = true ∧
+    ∃ scfg peer, serverGetTlsConfig SA.Gen.serverAuthGuardErrNil a.so = .ok scfg ∧ scfg.certs.head? = some peer ∧
+      X.chains (caPool co) peer = true ∧ X.validNow peer = true ∧ X.matchesName h peer = true := by
+  obtain ⟨a', ha', hout⟩ := C05_history_independent X co failover as m i out hr
+  rw [ha] at ha'
+  cases ha'
+  rw [hout, alone_est, Bool.and_eq_true, hhp] at hest
+  exact ⟨hest.1, C05_auth_sound X a.kind hk h p a.resolved hw co a.so hins hest.2⟩
+
+/-- **completeness per attempt**: every attempt that is made — at any position of any history — to
+    a reachable server whose certificate is acceptable for THIS upstream's host name (and whose own
+    requirement on the client is met) is established -/
+theorem C05_history_auth_complete (X : X509) (co : Opts) (failover : Bool) (as : List Attempt) (m : Mgr)
+    (i : Nat) (out : Outcome) (a : Attempt) (h p : Name) (hw : WfHostPort h p)
+    (hr : (runHist X genFacts SA.Gen.getTlsConfigFreshPerCall co failover as m)[i]? = some (some out))
+    (ha : as[i]? = some a) (hk : a.kind ≠ .stdioTls) (hhp : a.hostport = h ++ ':' :: p) (hup : a.up = true)
+    (ccfg scfg : TlsCfg) (peer : String)
+    (hc : clientGetTlsConfig co = .ok ccfg) (hs : configGetTlsConfig a.so = .ok scfg)
+    (hpeer : scfg.certs.head? = some peer)
+    (hchain : X.chains (caPool co) peer = true) (hvalid : X.validNow peer = true)
+    (hmatch : X.matchesName h peer = true)
+    (hcli : a.so.flag = false ∨
+      ∃ c, ccfg.certs.head? = some c ∧ X.chains (caPool a.so) c = true ∧ X.validNow c = true) :
+    out.est = true := by
+  obtain ⟨a', ha', hout⟩ := C05_history_independent X co failover as m i out hr
+  rw [ha] at ha'
+  cases ha'
+  rw [hout, alone_est, hup, Bool.true_and, hhp]
+  exact C05_auth_complete X a.kind hk h p a.resolved hw co a.so ccfg scfg peer hc hs hpeer hchain hvalid hmatch hcli
+
 /-! ## witnesses: the three defects found (kernel-checked on the model with the *other* value
     of the regenerated fact; each reproduced on the real code, see notes/C05.md) -/
 
@@ -318,6 +418,44 @@ theorem C05_witness_resolved_name_refuses :
       { ca := ⟨none, some (.cas ["A"])⟩ } (leafSrc "nameonly" {}) = false := by
   decide
 
+
+/-! ### what a manager that hands out the same object again would do (the other value of
+    SA.Gen.getTlsConfigFreshPerCall; reproduced on the real code with such a manager, notes/C05.md) -/
+
+/-- tcp+tls://localhost, up, presenting `backupCert` -/
+def sharedWitnessBackup (backupCert : String) : Attempt :=
+  { kind := .socketTls, hostport := "localhost:4443".toList, resolved := "127.0.0.1:4443".toList, up := true, so := leafSrc backupCert {} }
+
+/-- the fail-over list [tcp+tls://127.0.0.1 (down), tcp+tls://localhost] -/
+def sharedWitnessList (backupCert : String) : List Attempt :=
+  [{ kind := .socketTls, hostport := "127.0.0.1:4443".toList, resolved := "127.0.0.1:4443".toList, up := false, so := leafSrc "good" {} },
+   sharedWitnessBackup backupCert]
+
+/-- the name of the first (failed) attempt sticks: a CA-signed certificate for 127.0.0.1 only is
+    accepted for the upstream named `localhost` … -/
+theorem C05_witness_shared_config_accepts_other_host :
+    (runHist refX509 genFacts false { ca := ⟨none, some (.cas ["A"])⟩ } true (sharedWitnessList "iponly") none).map
+        (Option.map (fun r => (r.est, r.cfg.map (·.serverName)))) =
+      [some (false, some "127.0.0.1".toList), some (true, some "127.0.0.1".toList)] ∧
+    (alone refX509 genFacts { ca := ⟨none, some (.cas ["A"])⟩ } (sharedWitnessBackup "iponly")).est = false := by
+  decide
+
+/-- … and the server properly certified for `localhost` is refused -/
+theorem C05_witness_shared_config_refuses_certified :
+    (runHist refX509 genFacts false { ca := ⟨none, some (.cas ["A"])⟩ } true (sharedWitnessList "nameonly") none).map
+        (Option.map (·.est)) = [some false, some false] ∧
+    (alone refX509 genFacts { ca := ⟨none, some (.cas ["A"])⟩ } (sharedWitnessBackup "nameonly")).est = true := by
+  decide
+
+/-- a stdin+tls attempt switches verification off for every later attempt: an untrusted server is accepted -/
+theorem C05_witness_shared_config_stdio_leaks :
+    (runHist refX509 genFacts false { ca := ⟨none, some (.cas ["A"])⟩ } false
+        [{ kind := .stdioTls, hostport := [], resolved := [], up := true, so := leafSrc "good" {} },
+         { kind := .startTls, hostport := "server.test:4443".toList, resolved := [], up := true, so := leafSrc "untrusted" {} }] none).map
+        (Option.map (fun r => (r.est, r.cfg.map (·.insecureSkipVerify)))) =
+      [some (true, some true), some (true, some true)] := by
+  decide
+
 /-! ## non-vacuity -/
 
 -- the hypotheses of the theorems are satisfiable, and the conclusions are what the real code shows
@@ -349,6 +487,18 @@ example : established refX509 genFacts .startTls "server.test:4443".toList []
 example : established refX509 genFacts .startTls "server.test:4443".toList []
     (leafSrc "cforeign" { ca := ⟨none, some (.cas ["A"])⟩ }) (leafSrc "good" { ca := ⟨none, some (.cas ["A"])⟩, flag := true }) = false := by
   decide
+-- histories: a fail-over walk that reaches the properly certified backup, one that refuses the
+-- backup certified for another host, and a stdin+tls attempt that leaves a later verifying attempt alone
+example : (runHist refX509 genFacts SA.Gen.getTlsConfigFreshPerCall { ca := ⟨none, some (.cas ["A"])⟩ } true
+    (sharedWitnessList "nameonly") none).map (Option.map (·.est)) = [some false, some true] := by decide
+example : (runHist refX509 genFacts SA.Gen.getTlsConfigFreshPerCall { ca := ⟨none, some (.cas ["A"])⟩ } true
+    (sharedWitnessList "iponly") none).map (Option.map (·.est)) = [some false, some false] := by decide
+example : (runHist refX509 genFacts SA.Gen.getTlsConfigFreshPerCall { ca := ⟨none, some (.cas ["A"])⟩ } true
+    ((sharedWitnessList "good").reverse) none).map (Option.map (·.est)) = [some true, none] := by decide
+example : (runHist refX509 genFacts SA.Gen.getTlsConfigFreshPerCall { ca := ⟨none, some (.cas ["A"])⟩ } false
+    [{ kind := .stdioTls, hostport := [], resolved := [], up := true, so := leafSrc "good" {} },
+     { kind := .startTls, hostport := "server.test:4443".toList, resolved := [], up := true, so := leafSrc "untrusted" {} }] none).map
+    (Option.map (·.est)) = [some true, some false] := by decide
 -- IPv6 literal in brackets
 example : startTlsName SA.Gen.startTlsStripsPort "[2001:db8::1]:8443".toList = "2001:db8::1".toList := by decide
 -- UDP: a protected endpoint and two clients
@@ -383,3 +533,11 @@ end SA.TlsConfig
 #print axioms SA.TlsConfig.C05_witness_port_in_name
 #print axioms SA.TlsConfig.C05_witness_port_in_name_refuses
 #print axioms SA.TlsConfig.C05_witness_resolved_name_refuses
+#print axioms SA.TlsConfig.C05_history_independent
+#print axioms SA.TlsConfig.C05_history_seq
+#print axioms SA.TlsConfig.C05_history_config
+#print axioms SA.TlsConfig.C05_history_auth_sound
+#print axioms SA.TlsConfig.C05_history_auth_complete
+#print axioms SA.TlsConfig.C05_witness_shared_config_accepts_other_host
+#print axioms SA.TlsConfig.C05_witness_shared_config_refuses_certified
+#print axioms SA.TlsConfig.C05_witness_shared_config_stdio_leaks
